@@ -160,7 +160,11 @@ class Batch:
             d = os.path.join(wd, 'k%d' % self.n)
             os.makedirs(d)
             cc = c if cfg_override is None else dict(c, cfg=dict(c['cfg'], **cfg_override))
-            cfg = mapcase.materialise_files(cc, d, style_fn(cc) if style_fn else None)
+            if cc.get('layout'):
+                # the triples maps are spread over several data-source sections / files (each section with its own database)
+                cfg = mapcase.materialise_layout(cc, d, cc['layout'], style_fn(cc) if style_fn else None)
+            else:
+                cfg = mapcase.materialise_files(cc, d, style_fn(cc) if style_fn else None)
             py = mapcase.python_sources(cc)
             if py:
                 jobs.append({'fn': 'mat_set_py', 'args': {'config': cfg, 'cwd': d, 'py': py}})
